@@ -300,8 +300,6 @@ creationDateLoop:
 			continue
 		}
 		g := glyphs[seac.name] // TODO(voss): do we need to make a copy here?
-		g.WidthX = base.WidthX
-		g.WidthY = base.WidthY
 		g.Cmds = append(g.Cmds[:0], base.Cmds...)
 		for _, cmd := range accent.Cmds {
 			switch cmd.Op {
